@@ -195,7 +195,7 @@ class Arm(Robot):
             return self.getEEPos()
         if not protect:
             theta = self.thetaProtector(theta)
-        self._theta = fsr.angleMod(theta.reshape(len(theta)))
+        self._theta = fsr.angleMod(theta.reshape(len(theta)).copy())
         end_effector_transform = tm(fmr.FKinSpace(
             self._end_effector_home.gTM(), self.screw_list, theta))
         self._end_effector_pos_global = end_effector_transform
